@@ -4,6 +4,7 @@ import phys
 import impl
 import numpy as np
 
+EXTRA_COQ_FILES = ('GenFacts/ConstantsOK.v',)
 RULE = ('S1: for every accepted record length in 20..128 (thorough: all 8183 even lengths 20..16384) the segmenter is run on body '
         'lengths 0..40 and k*cap+d (|d|<=13); S2: synthetic files; S3: size-minimal real specifications (one 1-byte channel, '
         'name lengths 1..255, payload lengths 0..) under small and large record lengths. Any exception is a violation. '
